@@ -14,6 +14,12 @@ wk_shm *wk = NULL;
 const char *wk_variant = "ref";
 int wk_tier = 0;
 int wk_verbose = 0;
+#ifdef VF_COV
+extern void __gcov_dump(void);
+#define COVDUMP() __gcov_dump()
+#else
+#define COVDUMP() ((void)0)
+#endif
 static int real_stdout = 1;
 static const char *log_path = NULL;
 int wk_fork_per_case = 0;
@@ -178,7 +184,7 @@ int wk_main(int argc, char **argv)
             snprintf(wk->cls[0].sig, sizeof wk->cls[0].sig, "%s", r.sig);
             snprintf(wk->cls[0].ex_msg[0], sizeof wk->cls[0].ex_msg[0], "%s", r.msg);
             wk->cls[0].count = r.status; wk->done = 1;
-            fflush(NULL); _exit(0);
+            fflush(NULL); COVDUMP(); _exit(0);
         }
         int st; waitpid(pid, &st, 0);
         if (wk->done) {
@@ -209,11 +215,11 @@ int wk_main(int argc, char **argv)
             vres r; vcase c; char txt[700];
             long iter = 0;
             for (long idx = next; idx < size; idx += nshards, iter++) {
-                if ((iter & 15) == 0 && now_s() - t0 > deadline) { wk->deadline_hit = 1; wk->resume_idx = idx; fflush(NULL); _exit(0); }
+                if ((iter & 15) == 0 && now_s() - t0 > deadline) { wk->deadline_hit = 1; wk->resume_idx = idx; fflush(NULL); COVDUMP(); _exit(0); }
                 wk->cur_idx = idx;
                 ck->decode(wk_tier, idx, &c); c.idx = idx; snprintf(c.variant, sizeof c.variant, "%s", wk_variant);
                 run_one(ck, &c, &r, percase);
-                if (r.status == 2) { wk->skipped++; if (wk_fork_per_case) { wk->resume_idx = idx + nshards; wk->one_case_done = 1; fflush(NULL); _exit(0); } continue; }
+                if (r.status == 2) { wk->skipped++; if (wk_fork_per_case) { wk->resume_idx = idx + nshards; wk->one_case_done = 1; fflush(NULL); COVDUMP(); _exit(0); } continue; }
                 wk->evaluations++;
                 if (r.nontrivial) { wk->nontrivial++; if (wk->nsamples < 4 && (iter % 97 == 0 || wk->nsamples == 0)) { vcase_format(&c, txt, sizeof txt); snprintf(wk->samples[wk->nsamples++], 640, "%s", txt); } }
                 add_outcome(r.outcome);
@@ -222,11 +228,11 @@ int wk_main(int argc, char **argv)
                     vcase_format(&c, txt, sizeof txt);
                     add_failure(r.sig[0] ? r.sig : "unclassified", txt, r.msg);
                     if (sig_is_known(r.sig)) wk->counters[WK_NCOUNT - 1]++;
-                    if (wk->nfail - wk->counters[WK_NCOUNT - 1] >= maxfail) { wk->deadline_hit = 2; wk->resume_idx = idx + nshards; fflush(NULL); _exit(0); }
+                    if (wk->nfail - wk->counters[WK_NCOUNT - 1] >= maxfail) { wk->deadline_hit = 2; wk->resume_idx = idx + nshards; fflush(NULL); COVDUMP(); _exit(0); }
                 }
-                if (wk_fork_per_case && idx + nshards < size) { wk->resume_idx = idx + nshards; wk->one_case_done = 1; fflush(NULL); _exit(0); }
+                if (wk_fork_per_case && idx + nshards < size) { wk->resume_idx = idx + nshards; wk->one_case_done = 1; fflush(NULL); COVDUMP(); _exit(0); }
             }
-            wk->done = 1; fflush(NULL); _exit(0);
+            wk->done = 1; fflush(NULL); COVDUMP(); _exit(0);
         }
         int st; waitpid(pid, &st, 0);
         if (wk->one_case_done && !wk->deadline_hit && !wk->done) { next = wk->resume_idx; if (now_s() - t0 > deadline) { wk->deadline_hit = 1; break; } continue; }
